@@ -14,6 +14,7 @@ import time
 
 VERIF = os.path.dirname(os.path.dirname(os.path.abspath(__file__)))
 REPO = os.environ.get("VERIF_REPO", "/repo")
+OUT = os.environ.get("VERIF_OUT", VERIF)  # where evidence/ and work/ are written (the self-test matrix uses a scratch dir)
 PROOF_KINDS = {"post", "raise", "noraise", "callee-pre", "frame", "inv-init", "inv-pres", "lemma"}
 CLAUSE_KINDS = {"post", "raise", "noraise", "callee-pre", "frame", "lemma"}
 
@@ -50,8 +51,8 @@ def main(argv=None):
     tier = args.tier if args.tier in ("quick", "thorough") else "quick"
     seed = int(os.environ.get("VERIF_SEED", "0") or 0)
     t0 = time.time()
-    os.makedirs(os.path.join(VERIF, "evidence"), exist_ok=True)
-    os.makedirs(os.path.join(VERIF, "work", "replay"), exist_ok=True)
+    os.makedirs(os.path.join(OUT, "evidence"), exist_ok=True)
+    os.makedirs(os.path.join(OUT, "work", "replay"), exist_ok=True)
 
     sys.path.insert(0, VERIF)
     sys.path.insert(0, os.path.join(REPO, "src"))
@@ -153,7 +154,7 @@ def main(argv=None):
     lines = []
     rc = 0
     for i, (kind, v) in enumerate(violations):
-        path = os.path.join(VERIF, "work", "replay", f"{pid}.{i}.json")
+        path = os.path.join(OUT, "work", "replay", f"{pid}.{i}.json")
         rec = {"property": pid, "kind": kind, "tree": git_describe(), "cmd": f"/venv/bin/python /verif/replay.py {path}"}
         rec.update(v if isinstance(v, dict) else {"what": str(v)})
         with open(path, "w") as f:
@@ -209,7 +210,7 @@ def main(argv=None):
         "assumptions": sorted(assumptions)[:80] + ["machine arithmetic: Python ints are unbounded, encoded as mathematical Int (exact)",
                                                     "strings are uninterpreted names (equality only)"],
     }
-    with open(os.path.join(VERIF, "evidence", f"{pid}.json"), "w") as f:
+    with open(os.path.join(OUT, "evidence", f"{pid}.json"), "w") as f:
         json.dump(ev, f, indent=1, default=str)
     print(f"{pid} tier={tier}: functions={len(keys)} obligations={n_obl} discharged={n_dis} static={static.get('passed', 0)}/{static.get('checks', 0)} degraded={len(degraded)} "
           f"bounded_evals={bounded.get('evaluations', 0)} level={level} wall={time.time() - t0:.1f}s")
@@ -259,7 +260,7 @@ def run_bounded(pid, tier, seed, functions):
     runner = os.path.join(VERIF, "harness", "run.py")
     if not os.path.exists(runner):
         return {"ran": False, "note": "no harness"}
-    out = os.path.join(VERIF, "work", f"{pid}.bounded.json")
+    out = os.path.join(OUT, "work", f"{pid}.bounded.json")
     if os.path.exists(out):
         os.remove(out)
     env = dict(os.environ, PYTHONPATH=f"{REPO}/src:{VERIF}", VERIF_SEED=str(seed))
